@@ -79,6 +79,18 @@ func (l *RandomLayout) TrailingComment() string {
 	return c
 }
 
+func (l *RandomLayout) HeadComment() string {
+	if l.n(11, "headCommentP") != 0 {
+		return ""
+	}
+	l.Kinds["comment after a line that opens a block (= -> then else with {)"]++
+	c := commentTexts[l.n(len(commentTexts)-2, "headComment")] // never the multi-line one
+	if strings.Contains(c, "\n") {
+		c = "// head"
+	}
+	return c
+}
+
 func (l *RandomLayout) IfOneLine() bool {
 	b := l.n(1, "ifOneLine") == 1
 	if b {
